@@ -648,6 +648,8 @@ static void step(char *line) {
     char *prev = NULL; long from = 1;
     char *states = NULL; size_t sl = 0, sc = 0;
     if (getenv("H_NOCRASH")) all = 0;
+    /* `j` stands for a long run of notifications: the record of earlier Observe values is forgotten up front */
+    if (ev[0] == 'j') { int ji; if (sscanf(ev + 1, "%d", &ji) == 1 && ji >= 0 && ji < NRES && find_res(ji)) nsent[ji] = 0; }
     /* all crash points first (children work on copies), then the event itself in the parent with the op log on */
     for (k = 1; all && !completed && k < 5000; k++) {
       char *s = crash_state(ev, k, &completed);
